@@ -5,7 +5,7 @@ Sels == { S("all", 0, <<>>), S("depth", 1, <<>>), S("depth", 2, <<>>), S("depth"
           S("path", 0, <<1>>), S("path", 0, <<2>>), S("path", 0, <<1, 1>>), S("path", 0, <<2, 1>>) }
 Opts == { [sel |-> s, once |-> o, budget |-> b] : s \in Sels, o \in BOOLEAN, b \in {-1, 1, 3} }
 (* car get-dag: no link budget; incomplete stores, lenient and strict *)
-GSels == { S("all", 0, <<>>), S("depth", 2, <<>>), S("path", 0, <<1>>), S("path", 0, <<2, 1>>) }
+GSels == { S("all", 0, <<>>), S("depth", 2, <<>>), S("depth", 3, <<>>), S("path", 0, <<1>>), S("path", 0, <<2, 1>>) }
 GOpts == { [sel |-> s, once |-> o, budget |-> -1, miss |-> m, strict |-> st] :
               s \in GSels, o \in BOOLEAN, m \in { {}, {"n3"}, {"n2", "n4"} }, st \in BOOLEAN }
 (* two (root, selector) pairs -- root module only *)
